@@ -147,8 +147,14 @@ func c17(c *Ctx) {
 			}
 			// every field changed between checksum computation and verification
 			muts := []func(t *gssapi.WrapToken) (types.EncryptionKey, uint32){
-				func(t *gssapi.WrapToken) (types.EncryptionKey, uint32) { t.Flags ^= 1 << uint(c.R.Intn(3)); return key, usage },
-				func(t *gssapi.WrapToken) (types.EncryptionKey, uint32) { t.SndSeqNum ^= 1 << uint(c.R.Intn(64)); return key, usage },
+				func(t *gssapi.WrapToken) (types.EncryptionKey, uint32) {
+					t.Flags ^= 1 << uint(c.R.Intn(3))
+					return key, usage
+				},
+				func(t *gssapi.WrapToken) (types.EncryptionKey, uint32) {
+					t.SndSeqNum ^= 1 << uint(c.R.Intn(64))
+					return key, usage
+				},
 				func(t *gssapi.WrapToken) (types.EncryptionKey, uint32) {
 					if len(t.Payload) == 0 {
 						t.Payload = []byte{0}
@@ -164,9 +170,17 @@ func c17(c *Ctx) {
 					k2.KeyValue[c.R.Intn(len(k2.KeyValue))] ^= 0x10
 					return k2, usage
 				},
-				func(t *gssapi.WrapToken) (types.EncryptionKey, uint32) { return key, usages[(int(usage)-22+1+c.R.Intn(3))%4] },
-				func(t *gssapi.WrapToken) (types.EncryptionKey, uint32) { t.CheckSum = t.CheckSum[:len(t.CheckSum)-1]; return key, usage },
-				func(t *gssapi.WrapToken) (types.EncryptionKey, uint32) { t.CheckSum = append(append([]byte{}, t.CheckSum...), 0); return key, usage },
+				func(t *gssapi.WrapToken) (types.EncryptionKey, uint32) {
+					return key, usages[(int(usage)-22+1+c.R.Intn(3))%4]
+				},
+				func(t *gssapi.WrapToken) (types.EncryptionKey, uint32) {
+					t.CheckSum = t.CheckSum[:len(t.CheckSum)-1]
+					return key, usage
+				},
+				func(t *gssapi.WrapToken) (types.EncryptionKey, uint32) {
+					t.CheckSum = append(append([]byte{}, t.CheckSum...), 0)
+					return key, usage
+				},
 				func(t *gssapi.WrapToken) (types.EncryptionKey, uint32) { t.RRC ^= 0x101; t.EC ^= 3; return key, usage }, // outside the signed data
 			}
 			for mi, m := range muts {
@@ -242,8 +256,14 @@ func c17(c *Ctx) {
 				}
 			}
 			mmuts := []func(t *gssapi.MICToken) (types.EncryptionKey, uint32){
-				func(t *gssapi.MICToken) (types.EncryptionKey, uint32) { t.Flags ^= 1 << uint(c.R.Intn(3)); return key, usage },
-				func(t *gssapi.MICToken) (types.EncryptionKey, uint32) { t.SndSeqNum ^= 1 << uint(c.R.Intn(64)); return key, usage },
+				func(t *gssapi.MICToken) (types.EncryptionKey, uint32) {
+					t.Flags ^= 1 << uint(c.R.Intn(3))
+					return key, usage
+				},
+				func(t *gssapi.MICToken) (types.EncryptionKey, uint32) {
+					t.SndSeqNum ^= 1 << uint(c.R.Intn(64))
+					return key, usage
+				},
 				func(t *gssapi.MICToken) (types.EncryptionKey, uint32) {
 					t.Payload = append(append([]byte{}, t.Payload...), 1)
 					return key, usage
@@ -253,8 +273,13 @@ func c17(c *Ctx) {
 					k2.KeyValue[0] ^= 0x10
 					return k2, usage
 				},
-				func(t *gssapi.MICToken) (types.EncryptionKey, uint32) { return key, usages[(int(usage)-22+1+c.R.Intn(3))%4] },
-				func(t *gssapi.MICToken) (types.EncryptionKey, uint32) { t.Checksum = t.Checksum[:len(t.Checksum)-1]; return key, usage },
+				func(t *gssapi.MICToken) (types.EncryptionKey, uint32) {
+					return key, usages[(int(usage)-22+1+c.R.Intn(3))%4]
+				},
+				func(t *gssapi.MICToken) (types.EncryptionKey, uint32) {
+					t.Checksum = t.Checksum[:len(t.Checksum)-1]
+					return key, usage
+				},
 			}
 			for mi, m := range mmuts {
 				t2 := mt
